@@ -39,7 +39,7 @@ static int lanes_of(Kind k) { return k == KX ? 2 : k == KY ? 4 : k == KZ ? 8 : 1
   X(STKST) X(STKLD) X(STKADD) X(ADDC) X(MADD) X(ADDADC) X(SUBSBB) \
   X(VMOV_VG) X(VMOV_GV) X(VMOVD_VG) X(VMOVD_GV) X(VMOV) X(PADDD) X(PADDQ) X(PSUBD) X(PXOR) X(PCMPEQD) \
   X(VPADDD) X(VPADDQ) X(VPXOR) X(VPSUBQ) X(VPTERNLOG) X(PEXTRQ) X(PINSRQ) X(PSHUFD) X(PUNPCKLQDQ) X(VLOAD) X(VSTORE) X(VPADDQM) X(VBCAST) \
-  X(KMOV_KG) X(KMOV_GK) X(KMOV) X(KAND) X(KOR) X(KXOR) X(KXNOR) X(KANDN) X(KNOT) X(KADD) X(KSHL) \
+  X(KMOV_KG) X(KMOV_GK) X(KMOV) X(KAND) X(KOR) X(KXOR) X(KXNOR) X(KANDN) X(KNOT) X(KADD) X(KSHL) X(KMOVW_GK) X(KMOVD_GK) X(KMOVB_GK) X(KMOVW_KG) X(KMOVD_KG) X(KGATHER) X(KSCATTER) \
   X(LABEL) X(JMP) X(JZ) X(JNZ) X(DECJNZ) X(DECJG) X(JT) X(CALL) X(RET)
 
 enum Op : int {
@@ -344,6 +344,13 @@ static void interp(const Prog& p, const Input& in, uint64_t mem_ptr, Outcome& ou
       case O_KNOT: A[0] = ~b; break;
       case O_KADD: A[0] = b + c; break;
       case O_KSHL: A[0] = (imm & 0xFF) > 63 ? 0 : b << (imm & 0xFF); break;
+      case O_KMOVW_GK: case O_KMOVW_KG: A[0] = b & 0xFFFFu; break;
+      case O_KMOVD_GK: case O_KMOVD_KG: A[0] = b & 0xFFFFFFFFull; break;
+      case O_KMOVB_GK: A[0] = b & 0xFFu; break;
+      // vpgatherdd zmm{k}, [mem + imm + zmm(0)*4]: every selected lane receives the dword at mem+imm; the instruction CLEARS the mask
+      // vpscatterdd [mem + imm + zmm(0)*4]{k}, zmm(broadcast of the low dword): stores if any of the 16 lanes is selected; CLEARS the mask
+      case O_KSCATTER: if (b & 0xFFFFu) wr(I.imm, A[0] & 0xFFFFFFFFull, 4); v[size_t(I.b)].q[0] = 0; break;
+      case O_KGATHER: A[0] = rd(I.imm, 4) != 0 ? (b & 0xFFFFu) : 0; v[size_t(I.b)].q[0] = 0; break;
       // ---- control ----
       case O_LABEL: break;
       case O_JMP: pc = size_t(lpos[size_t(I.lbl)]); break;
@@ -564,6 +571,29 @@ struct EmitX86 {
       case O_KNOT: E(cc.knotq(Kr(a), Kr(b))); break;
       case O_KADD: E(cc.kaddq(Kr(a), Kr(b), Kr(c))); break;
       case O_KSHL: E(cc.kshiftlq(Kr(a), Kr(b), imm)); break;
+      case O_KMOVW_GK: E(cc.kmovw(G(a).r32(), Kr(b))); break;
+      case O_KMOVD_GK: E(cc.kmovd(G(a).r32(), Kr(b))); break;
+      case O_KMOVB_GK: E(cc.kmovb(G(a).r32(), Kr(b))); break;
+      case O_KMOVW_KG: E(cc.kmovw(Kr(a), G(b).r32())); break;
+      case O_KMOVD_KG: E(cc.kmovd(Kr(a), G(b).r32())); break;
+      case O_KSCATTER: {
+        x86::Vec idx = cc.new_zmm("s_idx"), src = cc.new_zmm("s_src");
+        E(cc.vpxord(idx, idx, idx)); E(cc.vpbroadcastd(src, G(a).r32()));
+        x86::Mem m = M(imm, 4); m.set_index(idx); m.set_shift(2);
+        E(cc.k(Kr(b)).vpscatterdd(m, src));
+        E(cc.vpaddd(src, src, idx));
+        break;
+      }
+      case O_KGATHER: {
+        x86::Vec idx = cc.new_zmm("g_idx"), dst = cc.new_zmm("g_dst"); x86::KReg kt = cc.new_kq("g_k");
+        E(cc.vpxord(idx, idx, idx)); E(cc.vpxord(dst, dst, dst));
+        x86::Mem m = M(imm, 4); m.set_index(idx); m.set_shift(2);
+        E(cc.k(Kr(b)).vpgatherdd(dst, m));
+        E(cc.vpaddd(dst, dst, idx));                                             // keeps the index alive: destination and index must differ
+        E(cc.vptestmd(kt, dst, dst));
+        E(cc.kmovd(G(a).r32(), kt));
+        break;
+      }
       // control
       case O_LABEL: E(cc.bind(labels[size_t(I.lbl)])); break;
       case O_JMP: E(cc.jmp(labels[size_t(I.lbl)])); break;
@@ -1215,6 +1245,13 @@ static const Alpha kAlpha[] = {
   {"kmov", 2, 2, "kk", 0, GEN { UNUSED; b.I(O_KMOV, x, y); }},
   {"knot", 2, 2, "kk", 0, GEN { UNUSED; b.I(O_KNOT, x, y); }},
   {"kshiftl", 2, 2, "kk", 0, GEN { UNUSED; b.I(O_KSHL, x, y, -1, 3); }},
+  {"kmovw-gk", 2, 2, "gk", 0, GEN { UNUSED; b.I(O_KMOVW_GK, x, y); }},
+  {"kmovd-gk", 2, 2, "gk", 0, GEN { UNUSED; b.I(O_KMOVD_GK, x, y); }},
+  {"kmovb-gk", 2, 2, "gk", 0, GEN { UNUSED; b.I(O_KMOVB_GK, x, y); }},
+  {"kmovw-kg", 2, 2, "kg", 0, GEN { UNUSED; b.I(O_KMOVW_KG, x, y); }},
+  {"kmovd-kg", 2, 2, "kg", 0, GEN { UNUSED; b.I(O_KMOVD_KG, x, y); }},
+  {"kgather", 2, 2, "gk", 0, GEN { UNUSED; b.I(O_KGATHER, x, y, -1, 4); }},
+  {"kscatter", 2, 2, "gk", 0, GEN { UNUSED; b.I(O_KSCATTER, x, y, -1, OUT_SLOT + 64); }},
   {"kand", 2, 3, "kkk", 0, GEN { UNUSED; b.I(O_KAND, x, y, z); }},
   {"kor", 2, 3, "kkk", 0, GEN { UNUSED; b.I(O_KOR, x, y, z); }},
   {"kxor", 2, 3, "kkk", 0, GEN { UNUSED; b.I(O_KXOR, x, y, z); }},
